@@ -18,9 +18,12 @@ Domain (DESIGN.md C16/B):
     same scaling gives <= 1.5e-4 inside this domain.  The observed maximum is reported; > 5e-4 is flagged thin.
   * the position angle of an ellipse is judged modulo 180 deg (an ellipse has no head), that of a vector modulo 360.
 """
+import os
+import shutil
+
 import numpy as np
 
-from aegmon.common import Obs, rng_for, n_distinct_rows
+from aegmon.common import Obs, rng_for, n_distinct_rows, scratch_dir
 from aegmon.refs import sphere, wcs_zenithal as wz
 
 ID = 'C16'
@@ -40,11 +43,18 @@ ASSUMPTIONS = ['oracle: aegmon/refs/wcs_zenithal.py (geometric formulation of FI
                'IEEE double arithmetic']
 MIN_REACH = {'wcs_helpers:WCSHelper.pix2sky': 1, 'wcs_helpers:WCSHelper.sky2pix': 1,
              'wcs_helpers:WCSHelper.sky2pix_vec': 1, 'wcs_helpers:WCSHelper.pix2sky_vec': 1,
-             'wcs_helpers:WCSHelper.sky2pix_ellipse': 1, 'wcs_helpers:WCSHelper.pix2sky_ellipse': 1}
+             'wcs_helpers:WCSHelper.sky2pix_ellipse': 1, 'wcs_helpers:WCSHelper.pix2sky_ellipse': 1,
+             'wcs_helpers:WCSHelper.get_psf_pix2pix': 1, 'wcs_helpers:WCSHelper.get_psf_sky2pix': 1,
+             'wcs_helpers:WCSHelper.get_psf_sky2sky': 1, 'wcs_helpers:WCSHelper.get_skybeam': 1,
+             'wcs_helpers:WCSHelper.get_beamarea_pix': 1, 'wcs_helpers:WCSHelper.psf_sky2pix': 1}
 MIN_COUNTERS = {'contract_pix2sky': 1000, 'contract_sky2pix': 1000, 'contract_sky2pix_vec': 500,
                 'contract_pix2sky_vec': 500, 'contract_sky2pix_ellipse': 500, 'contract_pix2sky_ellipse': 500,
                 'east_of_north_checked': 50, 'psf_roundtrip_checked': 10, 'nonsquare_ellipse_roundtrips': 100,
-                'int_spellings_checked': 1000, 'int_sky_spellings_checked': 100}
+                'int_spellings_checked': 1000, 'int_sky_spellings_checked': 100,
+                'rotated_header_cases': 10, 'psf_lookups_judged': 300, 'psfmap_constant_maps': 5, 'psfmap_blocks_maps': 5,
+                'psfmap_lookups_judged': 1000, 'psfmap_lookups_offdiagonal': 200,
+                'psfmap_lookups_transposition_sensitive': 100, 'psfmap_areas_judged': 200,
+                'sequence_helpers_judged': 100, 'sequence_rotated_helpers_judged': 40, 'sequence_lookups_judged': 500}
 
 TOL_PIX = 1e-6       # pixels, statement
 TOL_SKY = 1e-9       # degrees, statement
@@ -604,6 +614,12 @@ def cases(seed, tier):
         for k in range(per_proj):
             rng = rng_for(seed, 'hdr', proj, k)
             out.append(_header_case(rng, proj, k, n, seed))
+    q = tier == 'quick'
+    for proj in wz.PROJECTIONS:
+        for k in range(4 if q else 16):
+            out.append(_psfmap_case(rng_for(seed, 'psfmap', proj, k), proj, k, seed, 40 if q else 80))
+        for k in range(2 if q else 8):
+            out.append(_sequence_case(rng_for(seed, 'sequence', proj, k), proj, k, seed))
     return out
 
 
@@ -842,6 +858,330 @@ def _spellings(o, w, z, rng, rows, cols, case):
                     if got is not None:
                         o.count('int_sky_spellings_checked')
                         compare(method, name, [ra0, dec0] + list(args), base[key], got)
+
+
+# ----------------------------------------------------------------------------- psf look-ups
+def _expected_pixbeam(z, ra, dec, a, b, pa):
+    """independent projection of the sky ellipse (a, b, pa) centred on (ra, dec): pixel lengths of the images of the
+    major and minor axis vectors and the pixel angle of the major one"""
+    era, edec = sphere.destination(ra, dec, a, pa)
+    lmaj, tmaj = _pixvec(z, ra, dec, era, edec)
+    era, edec = sphere.destination(ra, dec, b, pa - 90.0)
+    lmin, _ = _pixvec(z, ra, dec, era, edec)
+    return lmaj, lmin, tmaj
+
+
+def _expected_skybeam(z, x, y, sx, sy, theta):
+    """independent sky image of the pixel ellipse (sx, sy, theta) centred on pixel (x, y)"""
+    t = np.radians(theta)
+    lmaj, pmaj = _skyvec(z, x, y, x + sx * np.cos(t), y + sx * np.sin(t))
+    lmin, _ = _skyvec(z, x, y, x + sy * np.cos(t - np.pi / 2), y + sy * np.sin(t - np.pi / 2))
+    return lmaj, lmin, pmaj
+
+
+def _judge_beam(o, clause, what, got, exp, wit, minor=True, prefix='psf'):
+    """(major, minor, angle) against the expectation: 1e-3 relative, 0.01 deg modulo 180 (statement's ellipse tolerances)"""
+    o.count(prefix + '_lookups_judged')
+    o.n_eval += 1
+    try:
+        g = [float(v) for v in got]
+    except (TypeError, ValueError):
+        o.violate(clause, dict(wit, call=what, got=repr(got), expected=list(exp)))
+        return False
+    if not _fin(*g):
+        o.violate(clause, dict(wit, call=what, got=g, expected=list(exp)))
+        return False
+    e1, e3 = _rel(g[0], exp[0]), _adiff(g[2], exp[2], 180.0)
+    e2 = _rel(g[1], exp[1]) if minor else 0.0
+    o.worst(prefix + '_lookup_len_rel', max(e1, e2))
+    o.worst(prefix + '_lookup_angle_deg', e3)
+    if not (e1 <= TOL_REL and e2 <= TOL_REL and e3 <= TOL_ANG):
+        o.violate(clause, dict(wit, call=what, got=g, expected=[float(v) for v in exp], len_rel=[e1, e2], angle_deg=e3))
+        return False
+    return True
+
+
+def _judge_area(o, clause, what, got, exp, wit, prefix='psf'):
+    o.count(prefix + '_areas_judged')
+    o.n_eval += 1
+    e = _rel(float(got), exp) if _fin(got) else float('inf')
+    o.worst(prefix + '_area_rel', e)
+    if not e <= 2.5 * TOL_REL:          # product of two lengths each good to 1e-3 (+ their product term)
+        o.violate(clause, dict(wit, call=what, got=float(got), expected=float(exp), rel=e))
+
+
+def _subject(o, wit, what, f, *args):
+    try:
+        return f(*args)
+    except Exception as ex:
+        import traceback
+        o.n_eval += 1
+        o.violate('raises', dict(wit, where=what, args=repr(args)[:200], exc=repr(ex), tb=traceback.format_exc()[-500:]))
+        return None
+
+
+def _judge_nomap_psf(o, w, z, beam, rng, rows, cols, wit, prefix='psf', nprobe=3):
+    """helper without a psf map: the pixel psf is the header beam projected at the reference point, wherever it is asked
+    for; the sky psf at a position is that pixel ellipse taken back to the sky there"""
+    if not (beam[0] <= DOM_ELL_LEN):
+        return
+    ra0, dec0 = z.crval
+    exp = _expected_pixbeam(z, ra0, dec0, *beam)
+    sq = _square(z)
+    x0, y0 = z.crpix[1], z.crpix[0]
+    probes = [(x0, y0)] + [(float(rng.uniform(0.5, rows + 0.5)), float(rng.uniform(0.5, cols + 0.5))) for _ in range(nprobe)]
+    for n_, (x, y) in enumerate(probes):
+        ra, dec = [float(v) for v in z.pix2sky(y, x)]
+        if _off_axis(z, ra, dec) > DOM_ELL_OFF:
+            o.count(prefix + '_probe_out_of_domain')
+            continue
+        wt = dict(wit, pixel_xy=[x, y], sky=[ra, dec], header_beam=list(beam))
+        g = _subject(o, wt, 'get_psf_pix2pix', w.get_psf_pix2pix, x, y)
+        if g is not None:
+            _judge_beam(o, 'pixel_psf_vs_projection', 'get_psf_pix2pix(x, y)', g, exp, wt, sq, prefix)
+        g = _subject(o, wt, 'get_psf_sky2pix', w.get_psf_sky2pix, ra, dec)
+        if g is not None:
+            _judge_beam(o, 'pixel_psf_vs_projection', 'get_psf_sky2pix(ra, dec)', g, exp, wt, sq, prefix)
+        esky = beam if n_ == 0 else _expected_skybeam(z, x, y, *exp)
+        if max(esky[0], esky[1]) > DOM_ELL_LEN:
+            continue
+        g = _subject(o, wt, 'get_psf_sky2sky', w.get_psf_sky2sky, ra, dec)
+        if g is not None:
+            _judge_beam(o, 'sky_psf_vs_projection', 'get_psf_sky2sky(ra, dec)', g, esky, wt, sq, prefix)
+        g = _subject(o, wt, 'get_skybeam', w.get_skybeam, ra, dec)
+        if g is not None:
+            _judge_beam(o, 'sky_psf_vs_projection', 'get_skybeam(ra, dec)', (g.a, g.b, g.pa), esky, wt, sq, prefix)
+        if sq:
+            g = _subject(o, wt, 'get_beamarea_pix', w.get_beamarea_pix, ra, dec)
+            if g is not None:
+                _judge_area(o, 'beam_area', 'get_beamarea_pix', g, np.pi * exp[0] * exp[1], wt, prefix)
+            g = _subject(o, wt, 'get_beamarea_deg2', w.get_beamarea_deg2, ra, dec)
+            if g is not None:
+                _judge_area(o, 'beam_area', 'get_beamarea_deg2', g, np.pi * esky[0] * esky[1], wt, prefix)
+
+
+# ----------------------------------------------------------------------------- psf-map branch
+class _MapOracle:
+    """the psf cube as generated by the harness (planes a, b, pa in degrees over FITS axes (2, 1)) and the independent WCS
+    of its header.  The beam at a sky position is the value of the nearest map pixel; where the 3 x 3 neighbourhood is not
+    constant, or within one pixel of the map's border, the answer depends on the look-up convention (nearest / truncated /
+    0- or 1-based) which C16 does not state: undetermined, not judged."""
+
+    def __init__(self, zpsf, cube):
+        self.z, self.cube = zpsf, cube
+
+    def beam_at(self, ra, dec):
+        p1, p2 = self.z.sky2pix(ra, dec)
+        if not _fin(p1, p2):
+            return None
+        j, i = int(np.round(float(p1) - 1.0)), int(np.round(float(p2) - 1.0))
+        n2, n1 = self.cube.shape[1:]
+        if not (1 <= i <= n2 - 2 and 1 <= j <= n1 - 2):
+            return None
+        nb = self.cube[:, i - 1:i + 2, j - 1:j + 2]
+        if not np.all(nb == self.cube[:, i:i + 1, j:j + 1]):
+            return None
+        return tuple(float(v) for v in self.cube[:, i, j])
+
+
+def _psfmap_case(rng, proj, k, seed, n):
+    """wide (half-diagonal 2.2-2.9 deg), clearly non-square image; reference points incl. |dec| 60-85"""
+    crval = [(180.0, -30.0), (0.0, 85.0), (359.9999, -85.0), (0.0001, 60.0), (12.3, 0.0), (200.0, -72.0)][k % 6]
+    long_ = int(rng.integers(240, 520))
+    short = int(long_ / float(rng.uniform(1.6, 2.6)))
+    rows, cols = (long_, short) if k % 2 else (short, long_)
+    half = float(rng.uniform(2.2, 2.9))
+    scale = half / (np.hypot(rows, cols) / 2.0)                      # deg / pixel
+    form = ['square', 'flipped', 'cd', 'pc_rot'][k % 4]
+    sg1 = 1.0 if form == 'flipped' else -1.0
+    return {'kind': 'psfmap', 'proj': proj, 'crval': list(crval), 'crpix': [cols / 2.0 + float(rng.uniform(-5, 5)),
+                                                                         rows / 2.0 + float(rng.uniform(-5, 5))],
+            'cdelt': [sg1 * scale, scale], 'shape': [rows, cols], 'use_cd': form == 'cd', 'form': form,
+            'rot': float(rng.choice([30.0, -110.0])) if form == 'pc_rot' else 0.0,
+            'map': ['constant', 'blocks'][(k // 2) % 2], 'map_proj': wz.PROJECTIONS[(wz.PROJECTIONS.index(proj) + 2) % 5],
+            'n': n, 'seed': [seed, 'psfmap', proj, k]}
+
+
+def _write_psf_map(case, rng, z, tmp, scale):
+    """3-plane cube (a, b, pa [deg]) on its own, coarser, north-up grid in another projection centred on the image centre"""
+    from astropy.io import fits
+    rows, cols = case['shape']
+    rac, decc = [float(v) for v in z.pix2sky(cols / 2.0 + 0.5, rows / 2.0 + 0.5)]
+    n1, n2 = 48, 40
+    extent = 1.5 * scale * np.hypot(rows, cols)                      # degrees covered by the map (> the image)
+    cd = extent / min(n1, n2)
+    ph = wz.make_header(case['map_proj'], (rac, decc), (n1 / 2.0 + 0.5, n2 / 2.0 + 0.5), (-cd, cd), (n2, n1))
+    ph['NAXIS'] = 3
+    ph['NAXIS3'] = 3
+    ph['CTYPE3'], ph['CRPIX3'], ph['CRVAL3'], ph['CDELT3'] = 'BEAM', 1.0, 1.0, 1.0
+    amax = min(0.09, 6.0 * scale)
+
+    def one():
+        a = float(rng.uniform(0.5, 1.0)) * amax
+        return a, a * float(rng.uniform(0.3, 0.8)), float(rng.uniform(-90, 90))
+    cube = np.zeros((3, n2, n1))
+    if case['map'] == 'constant':
+        cube[:, :, :] = np.array(one())[:, None, None]
+    else:
+        blk = 8
+        for bi in range(0, n2, blk):
+            for bj in range(0, n1, blk):
+                cube[:, bi:bi + blk, bj:bj + blk] = np.array(one())[:, None, None]
+    path = os.path.join(tmp, 'psf.fits')
+    fits.PrimaryHDU(cube.astype(np.float64), header=ph).writeto(path, overwrite=True)
+    zp = wz.ZenithalWCS({k_: ph[k_] for k_ in ('CTYPE1', 'CTYPE2', 'CRVAL1', 'CRVAL2', 'CRPIX1', 'CRPIX2', 'CDELT1', 'CDELT2')})
+    return path, _MapOracle(zp, cube)
+
+
+def _run_psfmap(case, wcs_helpers):
+    o = Obs()
+    set_obs(o)
+    tmp = scratch_dir()
+    try:
+        rng = rng_for(*case['seed'])
+        rows, cols = case['shape']
+        scale = abs(case['cdelt'][1])
+        hb = (min(0.09, 4 * scale), min(0.09, 4 * scale) * 0.6, 20.0)
+        hdr = _build_header(case, hb)
+        z = _oracle_from_header(hdr)
+        path, mp = _write_psf_map(case, rng, z, tmp, scale)
+        wit0 = {'proj': case['proj'], 'crval': case['crval'], 'cdelt': case['cdelt'], 'shape': case['shape'],
+                'form': case['form'], 'rot': case['rot'], 'psf_map': case['map'], 'psf_map_proj': case['map_proj']}
+        w = _subject(o, wit0, 'WCSHelper.from_header(psf_file=...)', lambda: wcs_helpers.WCSHelper.from_header(hdr, psf_file=path))
+        if w is None:
+            return o.result()
+        if getattr(w, '_aegmon_zwcs', None) is None:
+            raise RuntimeError('oracle was not attached to the helper')
+        o.count('psfmap_%s_maps' % case['map'])
+        o.see('psfmap_projection', case['proj'])
+        sq = _square(z)
+        probes = [(rows / 2.0 + 0.5, cols / 2.0 + 0.5), (rows * 0.25, cols * 0.75), (rows * 0.8, cols * 0.1)]
+        while len(probes) < case['n']:
+            probes.append((float(rng.uniform(0.5, rows + 0.5)), float(rng.uniform(0.5, cols + 0.5))))
+        seen = []
+        for (x, y) in probes:
+            ra, dec = [float(v) for v in z.pix2sky(y, x)]
+            if _off_axis(z, ra, dec) > DOM_ELL_OFF:
+                o.count('psfmap_probe_out_of_domain')
+                continue
+            beam = mp.beam_at(ra, dec)
+            if beam is None:
+                o.count('psfmap_lookup_undetermined')
+                continue
+            wt = dict(wit0, pixel_xy=[x, y], sky=[ra, dec], map_beam=list(beam))
+            exp = _expected_pixbeam(z, ra, dec, *beam)
+            if abs(x - y) > 2.0:
+                o.count('psfmap_lookups_offdiagonal')
+                # what the transposed pixel would give: the probe is decisive only if that differs
+                rt, dt = [float(v) for v in z.pix2sky(x, y)]
+                bt = mp.beam_at(rt, dt) or beam
+                et = _expected_pixbeam(z, rt, dt, *bt)
+                if _adiff(et[2], exp[2], 180.0) > 5 * TOL_ANG or _rel(et[0], exp[0]) > 5 * TOL_REL:
+                    o.count('psfmap_lookups_transposition_sensitive')
+            g = _subject(o, wt, 'get_psf_sky2sky', w.get_psf_sky2sky, ra, dec)
+            if g is not None:
+                _judge_beam(o, 'psfmap_sky_psf_vs_map', 'get_psf_sky2sky(ra, dec)', g, beam, wt, True, 'psfmap')
+            g = _subject(o, wt, 'get_skybeam', w.get_skybeam, ra, dec)
+            if g is not None:
+                _judge_beam(o, 'psfmap_sky_psf_vs_map', 'get_skybeam(ra, dec)',
+                            (g.a, g.b, g.pa) if g is not None and hasattr(g, 'a') else g, beam, wt, True, 'psfmap')
+            g = _subject(o, wt, 'get_psf_sky2pix', w.get_psf_sky2pix, ra, dec)
+            if g is not None:
+                _judge_beam(o, 'psfmap_pixel_psf_vs_projection', 'get_psf_sky2pix(ra, dec)', g, exp, wt, sq, 'psfmap')
+            g = _subject(o, wt, 'get_psf_pix2pix', w.get_psf_pix2pix, x, y)
+            if g is not None:
+                _judge_beam(o, 'psfmap_pixel_psf_vs_projection', 'get_psf_pix2pix(x, y)', g, exp, wt, sq, 'psfmap')
+            if sq:
+                g = _subject(o, wt, 'get_beamarea_pix', w.get_beamarea_pix, ra, dec)
+                if g is not None:
+                    _judge_area(o, 'psfmap_beam_area', 'get_beamarea_pix', g, np.pi * exp[0] * exp[1], wt, 'psfmap')
+            g = _subject(o, wt, 'get_beamarea_deg2', w.get_beamarea_deg2, ra, dec)
+            if g is not None:
+                _judge_area(o, 'psfmap_beam_area', 'get_beamarea_deg2', g, np.pi * beam[0] * beam[1], wt, 'psfmap')
+            seen.append((x, y) + beam)
+        if seen:
+            o.n_nontrivial += n_distinct_rows(*np.array(seen).T)
+            o.see('psfmap_distinct_beams', len(set(t[2:] for t in seen)))
+        o.sample = {'header': wit0, 'probes_judged': len(seen), 'first': None if not seen else list(seen[0])}
+        return o.result()
+    finally:
+        set_obs(None)
+        shutil.rmtree(tmp, ignore_errors=True)
+
+
+# ----------------------------------------------------------------------------- several helpers in one process
+def _sequence_case(rng, proj, k, seed):
+    """headers that share BMAJ/BMIN/BPA and CDELT and differ in grid rotation (PC / CROTA2 / CD), projection or reference
+    point; one header occurs twice; the order is part of the case"""
+    scale = float(10 ** rng.uniform(0.3, np.log10(45.0))) / 3600.0
+    a = float(rng.uniform(3.0, 6.0)) * scale
+    beam = [min(a, 0.09), min(a, 0.09) * float(rng.uniform(0.35, 0.7)), float(rng.uniform(-90, 90))]
+    base = {'proj': proj, 'crval': list(CRVALS[k % len(CRVALS)]), 'crpix': [60.5, 50.5], 'cdelt': [-scale, scale],
+            'shape': [100, 120], 'use_cd': False, 'form': 'square', 'rot': 0.0}
+    others = [p for p in wz.PROJECTIONS if p != proj]
+    members = [dict(base),
+               dict(base, form='pc_rot', rot=40.0),
+               dict(base, form='crota', rot=-75.0),
+               dict(base, form='cd_rot', rot=120.0),
+               dict(base, form='pc_rot', rot=float(rng.uniform(-180, 180))),
+               dict(base, proj=others[k % 4]),
+               dict(base, crval=list(CRVALS[(k + 3) % len(CRVALS)])),
+               dict(base, form='pc_rot', rot=40.0),                      # the same header a second time
+               dict(base)]
+    order = [int(i) for i in rng.permutation(len(members))]
+    if k % 2 == 0:
+        order = list(range(len(members)))                                # north-up first
+    return {'kind': 'sequence', 'beam': beam, 'members': [members[i] for i in order], 'seed': [seed, 'sequence', proj, k]}
+
+
+def _run_sequence(case, wcs_helpers):
+    o = Obs()
+    set_obs(o)
+    try:
+        rng = rng_for(*case['seed'])
+        beam = tuple(case['beam'])
+
+        def build(m):
+            hdr = _build_header(m, beam)
+            w = _subject(o, {'member': m}, 'WCSHelper.from_header', wcs_helpers.WCSHelper.from_header, hdr)
+            if w is not None and getattr(w, '_aegmon_zwcs', None) is None:
+                raise RuntimeError('oracle was not attached to the helper')
+            return w, _oracle_from_header(hdr)
+
+        def judge(idx, m, w, z, phase):
+            wit = {'phase': phase, 'position_in_sequence': idx, 'member': m, 'built_before': [
+                [mm['proj'], mm['form'], mm['rot']] for mm in case['members'][:idx]][-4:]}
+            o.count('sequence_helpers_judged')
+            if m['rot']:
+                o.count('sequence_rotated_helpers_judged')
+            _judge_nomap_psf(o, w, z, beam, rng, m['shape'][0], m['shape'][1], wit, prefix='sequence', nprobe=2)
+            # the transforms themselves (judged by the contracts)
+            x, y = float(rng.uniform(1, m['shape'][0])), float(rng.uniform(1, m['shape'][1]))
+            e = _subject(o, wit, 'pix2sky_ellipse', w.pix2sky_ellipse, (x, y), 5.0, 2.5, float(rng.uniform(-180, 180)))
+            if e is not None:
+                _subject(o, wit, 'sky2pix_ellipse', w.sky2pix_ellipse, (e[0], e[1]), e[2], e[3], e[4])
+
+        # phase 1: build all of them, then judge every one
+        built = [build(m) for m in case['members']]
+        for idx, (m, (w, z)) in enumerate(zip(case['members'], built)):
+            if w is not None:
+                judge(idx, m, w, z, 'after_all_built')
+        # phase 2: fresh helpers in reverse order, each judged as soon as it exists, the older ones judged again
+        fresh = []
+        for idx, m in enumerate(case['members'][::-1]):
+            w, z = build(m)
+            if w is None:
+                continue
+            judge(idx, m, w, z, 'interleaved_reverse')
+            fresh.append((m, w, z))
+            if idx % 3 == 2:
+                m0, w0, z0 = fresh[0]
+                judge(0, m0, w0, z0, 'interleaved_revisit')
+        o.n_nontrivial += len(case['members'])
+        o.sample = {'beam': list(beam), 'members': [[m['proj'], m['crval'], m['form'], m['rot']] for m in case['members']]}
+        return o.result()
+    finally:
+        set_obs(None)
 
 
 def fold(cases, results, tier):
